@@ -7,7 +7,8 @@
 //! `h1.echo`: the same bytes sent to `kvarn::handle_connection` with a host whose only extension answers every request
 //! with what the handler saw (request fields and the body), so the body handed to handlers is observed end to end.
 //!
-//! input  h1.accept: (L (L [default_host]) (L step..) (N limit) (N end)); h1.echo: (L (L step..) (N limit) (N end))
+//! input  h1.accept: (L (L [default_host]) (L step..) (N limit) (N end) [request]); h1.echo: (L (L step..) (N limit) (N end) [request])
+//!        (the structured request the bytes were printed from is used by the specification only)
 //!        step = (B bytes): write + flush, then a pause of 1 ms | (N ms): pause; end = 0: the client shuts its write side
 //!        down after the steps, 1: it stays silent with the connection open
 //! output (L outcome (N elapsed ms)), outcome = (L (N 0) (L method path (L [query]) version headers (L [authority]) body_outcome))
@@ -138,7 +139,7 @@ async fn seen(req: &mut Request<application::Body>, limit: usize) -> X {
 }
 
 fn accept(x: &X) -> X {
-    let l = match x.as_l() { Some(l) if l.len() == 4 => l, _ => return X::bad() };
+    let l = match x.as_l() { Some(l) if l.len() == 4 || l.len() == 5 => l, _ => return X::bad() };
     let (dh, steps, limit, end) = match (l[0].as_opt(), steps_of(&l[1]), l[2].as_n(), l[3].as_n()) {
         (Some(a), Some(b), Some(c), Some(d)) => (a.and_then(X::as_b).map(<[u8]>::to_vec), b, c as usize, d),
         _ => return X::bad(),
@@ -227,7 +228,7 @@ async fn read_response(rd: &mut tokio::net::tcp::OwnedReadHalf) -> Result<Option
 }
 
 fn echo(x: &X) -> X {
-    let l = match x.as_l() { Some(l) if l.len() == 3 => l, _ => return X::bad() };
+    let l = match x.as_l() { Some(l) if l.len() == 3 || l.len() == 4 => l, _ => return X::bad() };
     let (steps, limit, end) = match (steps_of(&l[0]), l[1].as_n(), l[2].as_n()) {
         (Some(a), Some(b), Some(c)) => (a, b as usize, c),
         _ => return X::bad(),
